@@ -36,3 +36,23 @@ Definition wit_ok_prog : prog :=
               (BCons (SSet TInt 1 (XCons (ECap 0 1 TStr) XNil) (ECap 0 1 TInt)) BNil)))
     (BCons (SOtherwise (BCons (SAddTo TInt 0 XNil (EInt 2)) BNil)) BNil))
     [[120%N]] [].
+
+(* a surface program with a decorator (docs/Language.md, "Decorated actions"):
+     counter a
+     def d { /x (\d+)/ { a++  next } }
+     @d { /y/ { a += $1 } }
+     @d { a++ }                                                     *)
+From V Require Import Lang.Expand.
+Definition wit_surface : sprog :=
+  mksprog [mkmdecl MCounter TInt 0]
+    [UCons (UCond (EMatch 0) (UCons (USimple (SInc 0 XNil)) (UCons UNext UNil))) UNil]
+    (UCons (UDeco 0 (UCons (UCond (EMatch 1) (UCons (USimple (SAddTo TInt 0 XNil (ECap 0 1 TInt))) UNil)) UNil))
+    (UCons (UDeco 0 (UCons (USimple (SInc 0 XNil)) UNil)) UNil))
+    [[120%N]; [121%N]].
+(* its inlining: the decorator's pattern is instantiated twice (pids 0 and 2) *)
+Definition wit_surface_core : prog :=
+  mkprog [mkmdecl MCounter TInt 0]
+    (BCons (SCond (EMatch 0) (BCons (SInc 0 XNil)
+              (BCons (SCond (EMatch 1) (BCons (SAddTo TInt 0 XNil (ECap 0 1 TInt)) BNil)) BNil)))
+    (BCons (SCond (EMatch 2) (BCons (SInc 0 XNil) (BCons (SInc 0 XNil) BNil))) BNil))
+    [[120%N]; [121%N]; [120%N]] [].
